@@ -277,5 +277,47 @@ ROUND2_TECH = {
 for _k, _v in ROUND2_TECH.items():
     CLAIMS[_k]["technique"] = CLAIMS[_k]["technique"] + _v
 
+# ---- round-3 addenda: rules written for the defects demonstrated by the hunting sub-agents (DESIGN.md §8.6) --------------
+ROUND3 = {
+ "C01": " No unsigned sum of the request length and a constant can wrap before it is used as a size (B8.size-arithmetic); the "
+        "carving loop places an object only while off + item_size <= frame.length.",
+ "C02": " A per-slab counter raised by allocate has a matching decrement on the free path (E.counter-balance).",
+ "C03": " B8.size-arithmetic as in C01; the page counter is only accessed under the tree mutex.",
+ "C04": " B8.size-arithmetic as in C01.",
+ "C05": " _usedPages is accessed under _tree_mutex on every access, reads included.",
+ "C11": " offline() entered in the deferred state reaches its exit without a failing assertion (E.leave-deferred); a seq_cst "
+        "fence separates the caller's earlier stores from the sample of the period counter in await_barrier/quiescent_barrier "
+        "(A1.grace-start-fence) and the acknowledgement from the reader's later loads (A1.ack-fence).",
+ "C12": " Ticket counters are compared for (in)equality only, never ordered (A.ticket.wrap-safe).",
+ "C13": " A by-reference argument is not read after a call, or an explicit destructor call, that may end the elements' lifetime "
+        "(O.arg-survives-growth); no element is built in the storage the container had on entry on a path that afterwards gives "
+        "that storage up (K.built-into-kept-storage); inline element storage is never exchanged as raw bytes, and swap hands the "
+        "inline elements of each side over by move construction and destruction on every path on which that side may be inline "
+        "(S.swap with StorageExchange; a necessary condition, the relocated ranges are not summed).",
+ "C16": " O.arg-survives-growth, K.built-into-kept-storage and O.storage-not-byte-swapped as in C13; a holder of raw storage declares "
+        "or deletes its copy operations (O2.holder-specials); a radix-tree entry is not constructed over a value that was never "
+        "destroyed (O.entry-reuse; the current tree violates it: open known finding D42).",
+ "C17": " Copy construction from a non-const lvalue selects the copy constructor (overload-resolution witness compiled in the unit, "
+        "W.copy-selects-copy); nothing reached through a `X &&` parameter that collapsed to an lvalue reference is std::move'd "
+        "(R.forward-collapsed); apply/get return-type witnesses (static_assert).",
+ "C19": " The position accumulator of a {} spec is range-checked before it can wrap (B6.fmt-width-range, strict for unsigned "
+        "accumulators); positional %N$ arguments are fetched with the type of their own directive (E.positional-fetch-type; the "
+        "current tree violates it: open known finding D43).",
+ "C20": " The magnitude of a negative integer is computed in the unsigned type of the operand for every instantiated type "
+        "(B.magnitude-unsigned); field lengths of print_float are not summed in int (B6.float-length); the cursor into the "
+        "locale's grouping string stays inside the string (B.grouping-cursor); E.positional-fetch-type as in C19.",
+}
+for _k, _v in ROUND3.items():
+    CLAIMS[_k]["text"] = CLAIMS[_k]["text"] + _v
+ROUND3_TECH = {
+ "C11": "; fence placement by dominance / post-dominance between atomic events",
+ "C13": "; per-path typestate over placement-new / destructor / buffer-store events on members with new helpers and lambdas virtually inlined ((name, arity) anchors); semantic capacity valuations for the swap case split",
+ "C16": "; the same per-path typestate rules as C13",
+ "C17": "; overload-resolution and return-type witnesses compiled with the unit",
+ "C20": "; per-instantiation integer-type rules (promotion, signedness) and interval evaluation of cursor arithmetic",
+}
+for _k, _v in ROUND3_TECH.items():
+    CLAIMS[_k]["technique"] = CLAIMS[_k]["technique"] + _v
+
 NOT_YET = "check not built yet in this revision (see DESIGN.md §7 order of work); not claimed until it exists"
 NA = {}
